@@ -29,6 +29,18 @@ THEOREMS = [
     "Nix.C20.dup_refused",
     "Nix.C20.dup_refused_existing",
     "Nix.C20.source_untouched",
+    "Nix.C20.shallow_contents",
+    "Nix.C20.copy_closed",
+    "Nix.C20.path_stays_in_copy",
+    "Nix.C20.old_links",
+    "Nix.C20.independent_setAttr",
+    "Nix.C20.independent_createProperty",
+    "Nix.C20.independent_create_entity",
+    "Nix.C20.independent_append",
+    "Nix.C20.independent_delete_old_side",
+    "Nix.C20.independent_delete_new_side",
+    "Nix.C20.independent_delete_partial",
+    "Nix.C20.independent_delete_counterexample",
 ]
 ASSUMPTIONS = [
     "HDF5's object copy (H5Ocopy through h5py.Group.copy: everything reachable by hard links duplicated once, links "
